@@ -92,7 +92,7 @@ def _high_low(draw):
         sel = list(range(D))
     else:
         sel = [draw(st.integers(0, D - 1))]
-    return dict(arm='high_low', c=c, form=form, sel=sel, spell=[draw(st.booleans()) for _ in sel], low=lo, high=hi)
+    return dict(arm='high_low', c=c, form=form, sel=sel, spell=[draw(st.sampled_from([True, False, 'neg'])) for _ in sel], low=lo, high=hi)
 
 
 @st.composite
@@ -134,7 +134,7 @@ def _ellipse(draw):
     if log and c['kind'] in ('array_i', 'sample_i') and c['cells'] and draw(st.booleans()):
         c['cells'][0][sel[0]] = 0        # a non-positive cell under log: simply not kept
     nbad = draw(st.sampled_from([None, None, None, 1, 3]))
-    return dict(arm='ellipse', c=c, sel=sel, spell=[draw(st.booleans()) for _ in sel], center=[cx, cy], a=a, b=b,
+    return dict(arm='ellipse', c=c, sel=sel, spell=[draw(st.sampled_from([True, False, 'neg'])) for _ in sel], center=[cx, cy], a=a, b=b,
                 theta=theta, log=log, exact=exact, bad_channels=nbad)
 
 
@@ -143,6 +143,8 @@ def strategy(tier):
 
 
 def _chan(c, j, by_name):
+    if by_name == 'neg':
+        return j - c['D']
     return c['names'][j] if (by_name and c['kind'].startswith('sample')) else j
 
 
@@ -194,7 +196,7 @@ def check(case, obs):
         if form == 'none':
             ch = None
         elif form in ('int', 'name'):
-            ch = _chan(c, sel[0], form == 'name')
+            ch = _chan(c, sel[0], 'neg' if (form == 'int' and case['spell'][0] == 'neg') else form == 'name')
         else:
             ch = [_chan(c, j, sp) for j, sp in zip(sel, case['spell'])]
         lo, hi = case['low'], case['high']
